@@ -174,6 +174,18 @@ pub fn run_jobs(ctx: &mut Ctx, op: &'static str, jobs: Vec<Job>) -> Vec<Done> {
                 clause: "key provider called more than once or before it signalled readiness".into(),
             });
         }
+        if job.expect_calls == Some(0) && job.case.ready_err.is_none() && v.class != "OK" && v.ready_polls > 0 {
+            ctx.rep.fail(Failure {
+                kind: "ORACLE",
+                op: op.to_string(),
+                class: format!("{}-ready-polled", job.class),
+                input: line.clone(),
+                imp: format!("{} readiness polls", v.ready_polls),
+                model: ml.clone(),
+                spec: "0 readiness polls".into(),
+                clause: format!("a request that fails a pre-check must leave the key provider alone (not even poll its readiness) — {}", job.case.describe()),
+            });
+        }
         if let Some(got) = &v.reqs_mismatch {
             ctx.rep.fail(Failure {
                 kind: "ORACLE",
@@ -437,6 +449,17 @@ pub fn c01(ctx: &mut Ctx) {
                 ctx.rep.count(match &expect { Expect::Accept => "gen.wire_edit_equivalent", _ => "gen.wire_edit_different" });
                 jobs.push(job(c, expect, "c01-wire-edit", "C01: after an edit of the URI or body the request must be accepted iff its presented signature is still the signature of the request as received"));
             }
+        }
+        // folded form: a URL parameter added under a name the form body also carries must still matter
+        if l.fold && l.form.as_ref().map(|f| !f.is_empty()).unwrap_or(false) {
+            let (k, v) = l.form.as_ref().unwrap()[0].clone();
+            let mut c = s.case.clone();
+            let mut extra = String::from_utf8(rs::encode(&k)).unwrap();
+            extra.push('=');
+            extra.push_str(&String::from_utf8(rs::encode(&v)).unwrap());
+            extra.push_str("zz");
+            c.uri = if c.uri.contains('?') { format!("{}&{}", c.uri, extra) } else { format!("{}?{}", c.uri, extra) };
+            jobs.push(job(c, Expect::Refuse(Some("SignatureDoesNotMatch")), "c01-query-shadowed-by-form", must));
         }
         // scope fields: region of the server differs from the signed one
         {
